@@ -110,6 +110,91 @@ fn observe<E: Pairing>(who: &str, a: &N, a2: &N, b: &N) -> Result<Vec<(String, V
         }
         o.push(("msm([G2,bG2],[a,b])/uncompressed".into(), ser(&msm.into_affine(), false)));
     }
+    // multiplication by integers that are not reduced scalars (several limbs, multiples of the group
+    // order, the cofactors), in projective and in affine form
+    {
+        let qm = Q.m.clone();
+        let ints: Vec<(&str, Vec<u64>)> = vec![
+            ("2^256", vec![0, 0, 0, 0, 1]),
+            ("2^320+7", vec![7, 0, 0, 0, 0, 1]),
+            ("q", qm.to_u64_digits()),
+            ("q+1", (&qm + 1u32).to_u64_digits()),
+            ("2q", (&qm * 2u32).to_u64_digits()),
+            ("a*(q+1) (8 limbs)", ((a + 1u32) * (&qm + 1u32)).to_u64_digits()),
+            ("all-ones(4)", vec![u64::MAX; 4]),
+            ("all-ones(6)", vec![u64::MAX; 6]),
+        ];
+        for (name, limbs) in &ints {
+            o.push((format!("[{name}]aG1 (projective)"), ser(&p.into_group().mul_bigint(limbs).into_affine(), false)));
+            o.push((format!("[{name}]aG1 (affine)"), ser(&p.mul_bigint(limbs).into_affine(), false)));
+            o.push((format!("[{name}]bG2 (projective)"), ser(&q.into_group().mul_bigint(limbs).into_affine(), false)));
+            o.push((format!("[{name}]bG2 (affine)"), ser(&q.mul_bigint(limbs).into_affine(), false)));
+        }
+        // curve points outside the prime-order subgroups: an x coordinate below p as a compressed encoding,
+        // parsed without validation (the square root of x^3 + b is taken, no subgroup check)
+        let pm = crate::refmodel::P.m.clone();
+        let x_bytes = |salt: u32, n: usize| -> Vec<u8> {
+            let v = ((a + 3u32) * (b + 5u32).pow(2) * (a2 + salt + 11u32).pow(3) + salt) % &pm;
+            let mut out = v.to_bytes_le();
+            out.resize(n, 0);
+            out
+        };
+        for salt in 0..6u32 {
+            let b1 = x_bytes(salt, 48);
+            match E::G1Affine::deserialize_compressed_unchecked(&b1[..]) {
+                Err(_) => o.push((format!("G1 x #{salt}"), b"no point".to_vec())),
+                Ok(r1) => {
+                    o.push((format!("G1 curve point #{salt}"), ser(&r1, false)));
+                    o.push((format!("G1 curve point #{salt} in subgroup?"), vec![E::G1Affine::deserialize_compressed(&ser(&r1, true)[..]).is_ok() as u8]));
+                    for (name, limbs) in &ints[2..5] {
+                        o.push((format!("[{name}](G1 curve point #{salt}) (projective)"), ser(&r1.into_group().mul_bigint(limbs).into_affine(), false)));
+                        o.push((format!("[{name}](G1 curve point #{salt}) (affine)"), ser(&r1.mul_bigint(limbs).into_affine(), false)));
+                    }
+                    o.push((format!("G1 curve point #{salt}.mul_by_cofactor"), ser(&r1.mul_by_cofactor(), false)));
+                }
+            }
+            let mut b2 = x_bytes(salt, 48);
+            b2.extend(x_bytes(salt + 100, 48));
+            match E::G2Affine::deserialize_compressed_unchecked(&b2[..]) {
+                Err(_) => o.push((format!("G2 x #{salt}"), b"no point".to_vec())),
+                Ok(r2) => {
+                    o.push((format!("G2 curve point #{salt}"), ser(&r2, false)));
+                    o.push((format!("G2 curve point #{salt} in subgroup?"), vec![E::G2Affine::deserialize_compressed(&ser(&r2, true)[..]).is_ok() as u8]));
+                    for (name, limbs) in &ints[2..5] {
+                        o.push((format!("[{name}](G2 curve point #{salt}) (projective)"), ser(&r2.into_group().mul_bigint(limbs).into_affine(), false)));
+                        o.push((format!("[{name}](G2 curve point #{salt}) (affine)"), ser(&r2.mul_bigint(limbs).into_affine(), false)));
+                    }
+                    o.push((format!("G2 curve point #{salt}.mul_by_cofactor"), ser(&r2.mul_by_cofactor(), false)));
+                }
+            }
+        }
+        // multi-scalar multiplication with identity bases and zero scalars in every position
+        let zero1 = E::G1Affine::zero();
+        let zero2 = E::G2Affine::zero();
+        let zs = E::ScalarField::from(0u64);
+        let bases1 = [g1, p, zero1, p2, psum, zero1, pneg];
+        let scal = [sa, sb, sa2, sb, zs, sa, sa2];
+        let m1 = <E::G1 as ark_ec::VariableBaseMSM>::msm(&bases1, &scal).map_err(|_| format!("{who}: msm length"))?;
+        let mut want1 = E::G1::zero();
+        for (bb, ss) in bases1.iter().zip(scal.iter()) {
+            want1 += bb.into_group() * *ss;
+        }
+        if m1 != want1 {
+            return Err(format!("{who}: G1 MSM with identity bases differs from the sum of the products"));
+        }
+        o.push(("msm(G1, identity bases)".into(), ser(&m1.into_affine(), false)));
+        let bases2 = [g2, zero2, q, qdbl, zero2];
+        let scal2 = [sa, sb, sa2, zs, sa];
+        let m2 = <E::G2 as ark_ec::VariableBaseMSM>::msm(&bases2, &scal2).map_err(|_| format!("{who}: msm length"))?;
+        let mut want2 = E::G2::zero();
+        for (bb, ss) in bases2.iter().zip(scal2.iter()) {
+            want2 += bb.into_group() * *ss;
+        }
+        if m2 != want2 {
+            return Err(format!("{who}: G2 MSM with identity bases differs from the sum of the products"));
+        }
+        o.push(("msm(G2, identity bases)".into(), ser(&m2.into_affine(), false)));
+    }
     let e_pq = E::pairing(p, q);
     let e_gg = E::pairing(g1, g2);
     o.push(("e(aG1,bG2)/compressed".into(), ser(&e_pq, true)));
